@@ -413,7 +413,21 @@ impl CoreDocument {
     //
     // NOTE: this check cannot be relied upon if the document contains methods or services whose ids are
     // of the form <did different from this document's>#<fragment>.
-    if self.resolve_method(method.id(), None).is_some() || self.service().query(method.id()).is_some() {
+    //
+    // The lookups above go by DID and fragment and stop at the first relationship entry that matches, which may be
+    // a reference that no method backs (such documents deserialize fine), so also compare the full identifiers:
+    // no two methods may share one, and a method must not be embedded under an identifier that a reference uses.
+    let embeds: bool = !matches!(scope, MethodScope::VerificationMethod);
+    let id_in_use: bool = self.verification_method().iter().any(|other| other.id() == method.id())
+      || self.verification_relationships().any(|method_ref| match method_ref {
+        MethodRef::Embed(other) => other.id() == method.id(),
+        MethodRef::Refer(reference) => embeds && reference == method.id(),
+      })
+      || self.service().iter().any(|service| service.id() == method.id());
+    if id_in_use
+      || self.resolve_method(method.id(), None).is_some()
+      || self.service().query(method.id()).is_some()
+    {
       return Err(Error::MethodInsertionError);
     }
     match scope {
